@@ -16,6 +16,7 @@ import re
 import string as S
 
 import common
+import paths
 import pyfacts
 import values
 
@@ -713,11 +714,7 @@ def outcome(fn, sort=False):
 def run_real(c):
     E = _engine()
     text, data = case_expr(c)
-    ex = E['parsed'].get(text)
-    if ex is None:
-        ex = E['parsed'][text] = E['eng'](text)
-    return outcome(lambda: ex.evaluate(data=data, context=E['ctx'].create_child_context()),
-                   sort=c['f'] == 'characters')
+    return outcome(lambda: paths.evaluate(E['eng'], E['ctx'], text, data), sort=c['f'] == 'characters')
 
 
 def run_oracle(c):
@@ -1090,6 +1087,7 @@ def run(env, res):
             small = shrink(c, drv, kind, key)
             j = judge(small, drv, kind)
             res.fail(kind, key, j[1] if j else describe(c, real, orc, mod), small)
+    res.extra['host_paths_this_process'] = dict(paths.HIST)
     res.extra['function_histogram'] = hist
     res.extra['outcome_histogram'] = outcomes
     res.extra['regex_features'] = feats
